@@ -172,3 +172,19 @@ MUTANTS += [
     ("c01_top_wind_zero", "C01", "solver.py", "        + 1j * u[nz - 1] * Kzinv * Lx[msk]\n", "        + 1j * u[0] * Kzinv * Lx[msk]\n"),
     ("c01_top_bc_dirichlet", "C01", "solver.py", "        alpha = -(tfftq2 - Kz[nz - 1] * eigval * tfftp2) / (\n            tfftq1 - Kz[nz - 1] * eigval * tfftp1\n        )", "        alpha = -(tfftp2) / (\n            tfftp1\n        )"),
 ]
+
+MUTANTS += [
+    # ---- C13
+    ("c13_met_index_ignored", "C13", "interface.py", "    met_step = config.met.get_step(met_index)\n", "    met_step = config.met.get_step(0)\n"),
+    ("c13_tower0_height", "C13", "interface.py", "            meas_height=tower.z_m,\n            wind=(u_wind, v_wind),\n            z0=z0_val,", "            meas_height=config.towers[0].z_m,\n            wind=(u_wind, v_wind),\n            z0=z0_val,"),
+    ("c13_domain_swapped", "C13", "interface.py", "        domain=(dom.xmax, dom.ymax),\n        levels=levels,", "        domain=(dom.ymax, dom.xmax),\n        levels=levels,"),
+    ("c13_halo_dropped", "C13", "interface.py", "        halo=dom.halo,\n", ""),
+    ("c13_precision_dropped", "C13", "interface.py", "        precision=sol.precision,\n", ""),
+    ("c13_ustar_preferred", "C13", "interface.py", "    z0_val = met_step.get(\"z0\")\n    if z0_val is not None:\n", "    z0_val = met_step.get(\"z0\")\n    if z0_val is not None and met_step.get(\"ustar\") is None:\n"),
+    ("c13_levels_nz_minus_1", "C13", "interface.py", "        levels = dom.nz\n", "        levels = dom.nz - 1\n"),
+    ("c13_meas_pt_swapped", "C13", "interface.py", "        meas_pt=(tower.x, tower.y),\n", "        meas_pt=(tower.y, tower.x),\n"),
+    ("c13_src_loc_dropped", "C13", "interface.py", "            src_loc=sol.src_loc,\n", ""),
+    ("c13_timestamp_index", "C13", "interface.py", "        \"timestamp\": met_step[\"timestamp\"],\n", "        \"timestamp\": met_index,\n"),
+    ("c13_yaml_modes_list", "C13", "config_parser.py", "        modes=tuple(modes),\n", "        modes=tuple(sorted(modes)),\n"),
+    ("c13_full_output_off_by_one", "C13", "interface.py", "        levels = list(range(dom.nz + 1))\n", "        levels = list(range(dom.nz))\n"),
+]
